@@ -140,7 +140,11 @@ class ServiceAccessPoint(object):
 
     def dequeue(self, miu_size, icv_size):
         with self.llc.lock:
-            for socket in self.sock_list:
+            # a listening socket holds the CC PDUs of the connections that
+            # were accepted from it, they must go out before anything that
+            # is sent on those connections
+            for socket in sorted(self.sock_list,
+                                 key=lambda socket: not socket.state.LISTEN):
                 send_pdu = socket.dequeue(miu_size, icv_size)
                 if send_pdu:
                     return send_pdu
